@@ -120,10 +120,10 @@ def life_scenarios(rng):
     for fam in (4, 6):
         # closed state: every I/O call after close, close twice, getters all the way
         s = ["scenario"] + tcp_pair(fam) + ["set 2 keepalive 1", "set 2 timeout 70", "set 2 blocking 0", "getters 2", "close 2", "close 2",
-             "send 2 10", "recv 2 10", "shutdown 2 1 1", "bind 2", "listen 2", "connect 2 1", "getters 2", "set 2 timeout 30", "set 2 blocking 1", "getters 2",
+             "send 2 10", "recv 2 10", "shutdown 2 1 1", "shutdown 2 0 0", "shutdown 2 1 0", "shutdown 2 0 1", "bind 2", "listen 2", "connect 2 1", "getters 2", "set 2 timeout 30", "set 2 blocking 1", "getters 2",
              "close 1", "accept 6 1", "listen 1", "close 3", "recv 3 5", "send 3 5"]
         out.append(s)
-        s = ["scenario"] + udp_pair(fam) + ["close 4", "sendto 4 5 1 10", "recvfrom 4 10", "close 4", "getters 4", "sendto 5 4 2 10"]
+        s = ["scenario"] + udp_pair(fam) + ["shutdown 5 0 0", "getters 5", "close 4", "sendto 4 5 1 10", "recvfrom 4 10", "shutdown 4 0 0", "shutdown 4 1 1", "close 4", "getters 4", "shutdown 4 0 0", "sendto 5 4 2 10"]
         out.append(s)
         # timeouts: accept on an empty queue, receive without data, datagram receive without data; not before T
         for T in (30, 120):
